@@ -137,11 +137,432 @@ pub trait ParallelIterator: Sized {
     {
         C::from_par_iter(self)
     }
+
+    // ---- the rest of rayon's commonly used surface, so that a change to winterfell that uses it
+    // still builds against the shim. Items are produced under the taped schedule
+    // (`sim_collect_vec` runs the leaves in taped order and places results by index); adaptors
+    // that rayon implements lazily are evaluated eagerly into an `Unindexed` stage, reductions
+    // combine the per-leaf partial results in a taped grouping.
+
+    fn filter<P>(self, p: P) -> Unindexed<Self::Item>
+    where
+        P: Fn(&Self::Item) -> bool + Sync + Send,
+    {
+        Unindexed { items: self.sim_collect_vec().into_iter().filter(|x| p(x)).collect() }
+    }
+
+    fn filter_map<P, R>(self, p: P) -> Unindexed<R>
+    where
+        P: Fn(Self::Item) -> Option<R> + Sync + Send,
+    {
+        Unindexed { items: self.sim_collect_vec().into_iter().filter_map(p).collect() }
+    }
+
+    fn flat_map<F, PI>(self, f: F) -> Unindexed<PI::Item>
+    where
+        F: Fn(Self::Item) -> PI + Sync + Send,
+        PI: IntoParallelIterator,
+    {
+        let mut out = vec![];
+        for x in self.sim_collect_vec() {
+            out.extend(f(x).into_par_iter().sim_collect_vec());
+        }
+        Unindexed { items: out }
+    }
+
+    fn flat_map_iter<F, SI>(self, f: F) -> Unindexed<SI::Item>
+    where
+        F: Fn(Self::Item) -> SI + Sync + Send,
+        SI: IntoIterator,
+    {
+        Unindexed { items: self.sim_collect_vec().into_iter().flat_map(f).collect() }
+    }
+
+    fn inspect<OP>(self, op: OP) -> Unindexed<Self::Item>
+    where
+        OP: Fn(&Self::Item) + Sync + Send,
+    {
+        let items = self.sim_collect_vec();
+        for x in &items {
+            op(x);
+        }
+        Unindexed { items }
+    }
+
+    fn cloned<'a, T>(self) -> Unindexed<T>
+    where
+        T: 'a + Clone,
+        Self: ParallelIterator<Item = &'a T>,
+    {
+        Unindexed { items: self.sim_collect_vec().into_iter().cloned().collect() }
+    }
+
+    fn copied<'a, T>(self) -> Unindexed<T>
+    where
+        T: 'a + Copy,
+        Self: ParallelIterator<Item = &'a T>,
+    {
+        Unindexed { items: self.sim_collect_vec().into_iter().copied().collect() }
+    }
+
+    fn chain<C>(self, other: C) -> Unindexed<Self::Item>
+    where
+        C: IntoParallelIterator<Item = Self::Item>,
+    {
+        let mut items = self.sim_collect_vec();
+        items.extend(other.into_par_iter().sim_collect_vec());
+        Unindexed { items }
+    }
+
+    fn for_each_with<T, OP>(self, init: T, op: OP)
+    where
+        T: Clone + Send,
+        OP: Fn(&mut T, Self::Item) + Sync + Send,
+    {
+        // one clone of `init` per leaf, as rayon hands one to every split
+        let items = self.sim_collect_vec();
+        for (a, b) in group_plan(items.len()) {
+            let _ = (a, b);
+        }
+        let mut it = items.into_iter();
+        for (a, b) in group_plan(it.len()) {
+            let mut state = init.clone();
+            for _ in a..b {
+                if let Some(x) = it.next() {
+                    op(&mut state, x);
+                }
+            }
+        }
+    }
+
+    fn try_for_each<OP, E>(self, op: OP) -> Result<(), E>
+    where
+        OP: Fn(Self::Item) -> Result<(), E> + Sync + Send,
+    {
+        // every item may have been started before an error is observed; the error reported is
+        // the one of the taped choice among the failing items
+        let errs: Vec<E> = self.sim_collect_vec().into_iter().filter_map(|x| op(x).err()).collect();
+        if errs.is_empty() {
+            Ok(())
+        } else {
+            let k = sim::pick("try.which_error", errs.len() as u64) as usize;
+            Err(errs.into_iter().nth(k).unwrap())
+        }
+    }
+
+    fn reduce<OP, ID>(self, identity: ID, op: OP) -> Self::Item
+    where
+        OP: Fn(Self::Item, Self::Item) -> Self::Item + Sync + Send,
+        ID: Fn() -> Self::Item + Sync + Send,
+    {
+        let items = self.sim_collect_vec();
+        let groups = group_plan(items.len());
+        let mut it = items.into_iter();
+        let mut partials: Vec<Self::Item> = vec![];
+        for (a, b) in groups {
+            let mut acc = identity();
+            for _ in a..b {
+                if let Some(x) = it.next() {
+                    acc = op(acc, x);
+                }
+            }
+            partials.push(acc);
+        }
+        partials.into_iter().fold(identity(), |a, b| op(a, b))
+    }
+
+    fn reduce_with<OP>(self, op: OP) -> Option<Self::Item>
+    where
+        OP: Fn(Self::Item, Self::Item) -> Self::Item + Sync + Send,
+    {
+        self.sim_collect_vec().into_iter().reduce(op)
+    }
+
+    fn fold<T, ID, F>(self, identity: ID, fold_op: F) -> Unindexed<T>
+    where
+        F: Fn(T, Self::Item) -> T + Sync + Send,
+        ID: Fn() -> T + Sync + Send,
+    {
+        // one partial result per leaf: HOW MANY there are is a scheduling decision
+        let items = self.sim_collect_vec();
+        let groups = group_plan(items.len());
+        let mut it = items.into_iter();
+        let mut partials = vec![];
+        for (a, b) in groups {
+            let mut acc = identity();
+            for _ in a..b {
+                if let Some(x) = it.next() {
+                    acc = fold_op(acc, x);
+                }
+            }
+            partials.push(acc);
+        }
+        Unindexed { items: partials }
+    }
+
+    fn sum<S>(self) -> S
+    where
+        S: std::iter::Sum<Self::Item> + std::iter::Sum<S> + Send,
+    {
+        let items = self.sim_collect_vec();
+        let groups = group_plan(items.len());
+        let mut it = items.into_iter();
+        let mut partials: Vec<S> = vec![];
+        for (a, b) in groups {
+            partials.push(it.by_ref().take(b - a).sum());
+        }
+        partials.into_iter().sum()
+    }
+
+    fn product<P>(self) -> P
+    where
+        P: std::iter::Product<Self::Item> + std::iter::Product<P> + Send,
+    {
+        let items = self.sim_collect_vec();
+        let groups = group_plan(items.len());
+        let mut it = items.into_iter();
+        let mut partials: Vec<P> = vec![];
+        for (a, b) in groups {
+            partials.push(it.by_ref().take(b - a).product());
+        }
+        partials.into_iter().product()
+    }
+
+    fn count(self) -> usize {
+        self.sim_collect_vec().len()
+    }
+
+    fn any<P>(self, p: P) -> bool
+    where
+        P: Fn(Self::Item) -> bool + Sync + Send,
+    {
+        self.sim_collect_vec().into_iter().any(p)
+    }
+
+    fn all<P>(self, p: P) -> bool
+    where
+        P: Fn(Self::Item) -> bool + Sync + Send,
+    {
+        self.sim_collect_vec().into_iter().all(p)
+    }
+
+    fn min(self) -> Option<Self::Item>
+    where
+        Self::Item: Ord,
+    {
+        self.sim_collect_vec().into_iter().min()
+    }
+
+    fn max(self) -> Option<Self::Item>
+    where
+        Self::Item: Ord,
+    {
+        self.sim_collect_vec().into_iter().max()
+    }
+
+    fn min_by_key<K: Ord + Send, F>(self, f: F) -> Option<Self::Item>
+    where
+        F: Fn(&Self::Item) -> K + Sync + Send,
+    {
+        self.sim_collect_vec().into_iter().min_by_key(f)
+    }
+
+    fn max_by_key<K: Ord + Send, F>(self, f: F) -> Option<Self::Item>
+    where
+        F: Fn(&Self::Item) -> K + Sync + Send,
+    {
+        self.sim_collect_vec().into_iter().max_by_key(f)
+    }
+
+    fn find_first<P>(self, predicate: P) -> Option<Self::Item>
+    where
+        P: Fn(&Self::Item) -> bool + Sync + Send,
+    {
+        self.sim_collect_vec().into_iter().find(|x| predicate(x))
+    }
+
+    fn find_map_any<P, R>(self, predicate: P) -> Option<R>
+    where
+        P: Fn(Self::Item) -> Option<R> + Sync + Send,
+        R: Send,
+    {
+        let hits: Vec<R> = self.sim_collect_vec().into_iter().filter_map(predicate).collect();
+        if hits.is_empty() {
+            None
+        } else {
+            let k = sim::pick("find_map_any.which", hits.len() as u64) as usize;
+            hits.into_iter().nth(k)
+        }
+    }
+
+    fn unzip<A, B, FromA, FromB>(self) -> (FromA, FromB)
+    where
+        Self: ParallelIterator<Item = (A, B)>,
+        FromA: Default + Extend<A>,
+        FromB: Default + Extend<B>,
+    {
+        let mut fa = FromA::default();
+        let mut fb = FromB::default();
+        for (a, b) in self.sim_collect_vec() {
+            fa.extend(std::iter::once(a));
+            fb.extend(std::iter::once(b));
+        }
+        (fa, fb)
+    }
+
+    fn partition<A, B, P>(self, predicate: P) -> (A, B)
+    where
+        A: Default + Extend<Self::Item>,
+        B: Default + Extend<Self::Item>,
+        P: Fn(&Self::Item) -> bool + Sync + Send,
+    {
+        let mut fa = A::default();
+        let mut fb = B::default();
+        for x in self.sim_collect_vec() {
+            if predicate(&x) {
+                fa.extend(std::iter::once(x));
+            } else {
+                fb.extend(std::iter::once(x));
+            }
+        }
+        (fa, fb)
+    }
+}
+
+/// how a sequence of `len` already produced items is grouped into per-task partial results
+fn group_plan(len: usize) -> Vec<(usize, usize)> {
+    let mut g = plan(len, 1);
+    g.sort_unstable();
+    g
+}
+
+/// A stage whose items have already been produced (under the taped schedule of the stage before).
+pub struct Unindexed<T> {
+    items: Vec<T>,
+}
+
+impl<T> ParallelIterator for Unindexed<T> {
+    type Item = T;
+
+    fn for_each<OP>(self, op: OP)
+    where
+        OP: Fn(T) + Sync + Send,
+    {
+        // the consumers of an unindexed stage run leaf by leaf in a taped order
+        let n = self.items.len();
+        let mut slots: Vec<Option<T>> = self.items.into_iter().map(Some).collect();
+        for (a, b) in plan(n, 1) {
+            for s in slots.iter_mut().take(b).skip(a) {
+                if let Some(x) = s.take() {
+                    op(x);
+                }
+            }
+        }
+    }
+
+    fn find_any<P>(self, predicate: P) -> Option<T>
+    where
+        P: Fn(&T) -> bool + Sync + Send,
+    {
+        let n = self.items.len();
+        let mut slots: Vec<Option<T>> = self.items.into_iter().map(Some).collect();
+        for (a, b) in plan(n, 1) {
+            for s in slots.iter_mut().take(b).skip(a) {
+                if let Some(x) = s.take() {
+                    if predicate(&x) {
+                        return Some(x);
+                    }
+                }
+            }
+        }
+        None
+    }
+
+    fn sim_collect_vec(self) -> Vec<T> {
+        self.items
+    }
 }
 
 pub trait IndexedParallelIterator: ParallelIterator + RandomAccess<RaItem = <Self as ParallelIterator>::Item> {
     fn len(&self) -> usize {
         self.ra_len()
+    }
+
+    fn with_max_len(self, _max: usize) -> Self {
+        // a splitting hint only: the taped plan already produces leaves of every size
+        self
+    }
+
+    fn zip_eq<Z>(self, zip_op: Z) -> Zip<Self, Z::Iter>
+    where
+        Z: IntoParallelIterator,
+        Z::Iter: IndexedParallelIterator,
+    {
+        let other = zip_op.into_par_iter();
+        assert_eq!(self.ra_len(), other.ra_len(), "iterators must have the same length");
+        Zip { a: self, b: other }
+    }
+
+    fn rev(self) -> Unindexed<<Self as ParallelIterator>::Item> {
+        let mut items = self.sim_collect_vec();
+        items.reverse();
+        Unindexed { items }
+    }
+
+    fn take(self, n: usize) -> Unindexed<<Self as ParallelIterator>::Item> {
+        let mut items = self.sim_collect_vec();
+        items.truncate(n);
+        Unindexed { items }
+    }
+
+    fn skip(self, n: usize) -> Unindexed<<Self as ParallelIterator>::Item> {
+        let items = self.sim_collect_vec();
+        Unindexed { items: items.into_iter().skip(n).collect() }
+    }
+
+    fn step_by(self, step: usize) -> Unindexed<<Self as ParallelIterator>::Item> {
+        let items = self.sim_collect_vec();
+        Unindexed { items: items.into_iter().step_by(step).collect() }
+    }
+
+    fn chunks(self, size: usize) -> Unindexed<Vec<<Self as ParallelIterator>::Item>> {
+        assert!(size != 0, "chunk_size must not be zero");
+        let items = self.sim_collect_vec();
+        let mut out = vec![];
+        let mut cur = vec![];
+        for x in items {
+            cur.push(x);
+            if cur.len() == size {
+                out.push(std::mem::take(&mut cur));
+            }
+        }
+        if !cur.is_empty() {
+            out.push(cur);
+        }
+        Unindexed { items: out }
+    }
+
+    fn position_any<P>(self, predicate: P) -> Option<usize>
+    where
+        P: Fn(<Self as ParallelIterator>::Item) -> bool + Sync + Send,
+    {
+        let hits: Vec<usize> = self.sim_collect_vec().into_iter().enumerate().filter_map(|(i, x)| if predicate(x) { Some(i) } else { None }).collect();
+        if hits.is_empty() {
+            None
+        } else {
+            Some(hits[sim::pick("position_any.which", hits.len() as u64) as usize])
+        }
+    }
+
+    fn position_first<P>(self, predicate: P) -> Option<usize>
+    where
+        P: Fn(<Self as ParallelIterator>::Item) -> bool + Sync + Send,
+    {
+        self.sim_collect_vec().into_iter().position(predicate)
+    }
+
+    fn collect_into_vec(self, target: &mut Vec<<Self as ParallelIterator>::Item>) {
+        *target = self.sim_collect_vec();
     }
 
     fn zip<Z>(self, zip_op: Z) -> Zip<Self, Z::Iter>
@@ -230,6 +651,70 @@ pub trait ParallelSlice<T> {
         assert!(chunk_size != 0, "chunk_size must not be zero");
         let s = self.as_parallel_slice();
         Chunks { ptr: s.as_ptr(), len: s.len(), chunk: chunk_size, _m: PhantomData }
+    }
+}
+
+/// further slice methods of rayon's `ParallelSlice` / `ParallelSliceMut`
+pub trait ParallelSliceExtra<T> {
+    fn par_chunks_exact(&self, chunk_size: usize) -> Chunks<'_, T>;
+    fn par_windows(&self, window_size: usize) -> Unindexed<&[T]>;
+}
+
+impl<T> ParallelSliceExtra<T> for [T] {
+    fn par_chunks_exact(&self, chunk_size: usize) -> Chunks<'_, T> {
+        assert!(chunk_size != 0, "chunk_size must not be zero");
+        let n = self.len() / chunk_size * chunk_size;
+        self[..n].par_chunks(chunk_size)
+    }
+    fn par_windows(&self, window_size: usize) -> Unindexed<&[T]> {
+        assert!(window_size != 0, "window_size must not be zero");
+        Unindexed { items: self.windows(window_size).collect() }
+    }
+}
+
+pub trait ParallelSliceMutExtra<T> {
+    fn par_chunks_exact_mut(&mut self, chunk_size: usize) -> ChunksMut<'_, T>;
+    fn par_sort(&mut self)
+    where
+        T: Ord;
+    fn par_sort_unstable(&mut self)
+    where
+        T: Ord;
+    fn par_sort_by_key<K: Ord, F: Fn(&T) -> K + Sync>(&mut self, f: F);
+    fn par_sort_unstable_by_key<K: Ord, F: Fn(&T) -> K + Sync>(&mut self, f: F);
+    fn par_sort_by<F: Fn(&T, &T) -> std::cmp::Ordering + Sync>(&mut self, f: F);
+    fn par_sort_unstable_by<F: Fn(&T, &T) -> std::cmp::Ordering + Sync>(&mut self, f: F);
+}
+
+impl<T> ParallelSliceMutExtra<T> for [T] {
+    fn par_chunks_exact_mut(&mut self, chunk_size: usize) -> ChunksMut<'_, T> {
+        assert!(chunk_size != 0, "chunk_size must not be zero");
+        let n = self.len() / chunk_size * chunk_size;
+        self[..n].par_chunks_mut(chunk_size)
+    }
+    fn par_sort(&mut self)
+    where
+        T: Ord,
+    {
+        self.sort()
+    }
+    fn par_sort_unstable(&mut self)
+    where
+        T: Ord,
+    {
+        self.sort_unstable()
+    }
+    fn par_sort_by_key<K: Ord, F: Fn(&T) -> K + Sync>(&mut self, f: F) {
+        self.sort_by_key(f)
+    }
+    fn par_sort_unstable_by_key<K: Ord, F: Fn(&T) -> K + Sync>(&mut self, f: F) {
+        self.sort_unstable_by_key(f)
+    }
+    fn par_sort_by<F: Fn(&T, &T) -> std::cmp::Ordering + Sync>(&mut self, f: F) {
+        self.sort_by(f)
+    }
+    fn par_sort_unstable_by<F: Fn(&T, &T) -> std::cmp::Ordering + Sync>(&mut self, f: F) {
+        self.sort_unstable_by(f)
     }
 }
 
@@ -629,6 +1114,63 @@ impl ParallelIterator for RangeU64 {
         self.range.collect()
     }
 }
+
+impl IntoParallelIterator for std::ops::RangeInclusive<u64> {
+    type Iter = RangeU64;
+    type Item = u64;
+    fn into_par_iter(self) -> RangeU64 {
+        let (a, b) = self.into_inner();
+        // (an inclusive range that ends at u64::MAX loses its last value: the search spaces this
+        // is used for are never exhausted)
+        RangeU64 { range: a..b.saturating_add(1) }
+    }
+}
+
+/// indexed integer ranges (`Range<usize>`, `Range<u32>`, `Range<i32>`, `Range<i64>`, their
+/// inclusive forms through `into_par_iter`)
+pub struct RangeIdx<T> {
+    start: T,
+    len: usize,
+}
+
+macro_rules! indexed_range {
+    ($t:ty) => {
+        unsafe impl RandomAccess for RangeIdx<$t> {
+            type RaItem = $t;
+            fn ra_len(&self) -> usize {
+                self.len
+            }
+            unsafe fn ra_get(&self, i: usize) -> $t {
+                self.start + i as $t
+            }
+        }
+        indexed_impl!([] RangeIdx<$t>, $t);
+        impl IntoParallelIterator for Range<$t> {
+            type Iter = RangeIdx<$t>;
+            type Item = $t;
+            fn into_par_iter(self) -> RangeIdx<$t> {
+                let len = if self.end > self.start { (self.end - self.start) as usize } else { 0 };
+                RangeIdx { start: self.start, len }
+            }
+        }
+        impl IntoParallelIterator for std::ops::RangeInclusive<$t> {
+            type Iter = RangeIdx<$t>;
+            type Item = $t;
+            fn into_par_iter(self) -> RangeIdx<$t> {
+                let (a, b) = self.into_inner();
+                let len = if b >= a { (b - a) as usize + 1 } else { 0 };
+                RangeIdx { start: a, len }
+            }
+        }
+    };
+}
+indexed_range!(usize);
+indexed_range!(u32);
+indexed_range!(u16);
+indexed_range!(u8);
+indexed_range!(i32);
+indexed_range!(i64);
+indexed_range!(isize);
 
 /// sub-ranges (cursor, end) in the order the simulated tasks take turns
 fn split_range(r: &Range<u64>) -> Vec<(u64, u64)> {
